@@ -148,7 +148,7 @@ def load_known_findings():
 def finding_matches(f, rec) -> bool:
     if f.get("status", "open") != "open":
         return False
-    if f["obligation"] != rec["oid"]:
+    if rec["oid"] != f["obligation"] and rec["oid"] not in f.get("obligations", ()):  # "obligations": further ids explained by the same defect
         return False
     hay = (rec.get("note") or "") + " || " + " ; ".join(rec.get("path") or ())
     pat = f.get("where")
@@ -309,7 +309,7 @@ def main(prop: str, tier: str = "quick") -> int:
         print(f"  refuted obligation: {rec['oid']}  [{rec.get('note','')}]  path={' ; '.join(rec.get('path') or ())[:300]}")
         exit_code = 1
     # residual: obligations with a known finding are not counted as required-to-hold
-    known_oids = {f["obligation"] for _, (f, _) in known_hit.items()}
+    known_oids = {o for _, (f, _) in known_hit.items() for o in [f["obligation"], *f.get("obligations", ())]}
 
     for r in unsupported:
         bs = r.get("bounded_standin") or {}
